@@ -1,4 +1,5 @@
 import ITree.Lemmas.ArenaOps
+import ITree.Lemmas.ArenaDeleteTop
 import ITree.Lemmas.MapWF
 /-!
 # Arena level (pointer code with parent links) — theorems shared by C02, C08, C09, C10, C11, C17
@@ -49,6 +50,27 @@ theorem arena_write_refines {a : Arena V} {st st' : St V} (h : RepSt a st) (hw :
     (slot : Nat) (v : V) (hm : st.setValueByIndex slot v = some st') :
     ∃ n a', a.node slot = some n ∧ a.setEnt slot (n.ent.setVal v) = some a' ∧ RepSt a' st' :=
   setValueByIndex_rep h hw.slots slot v hm
+
+/-- **delete(key)**: the pointer-level removal — lookup, successor search and entity move for a node with
+two children, unlinking (with the NIL scratch node in slot 0 for a black leaf), the whole delete repair
+(red sibling, black sibling with black / red nephews, recursion towards the root) with every parent-field
+update, and `put_back` — never indexes outside the arena and yields exactly the state of the zipper model's
+`St.delete`, for every well-formed state and key (present or absent). -/
+theorem arena_delete_refines {a : Arena V} {st st' : St V} (key : Int) (h : RepSt a st) (hw : WF st)
+    (hsize : a.nodes.size ≤ EMPTY) (hm : st.delete key = some st') :
+    ∃ a', a.delete key = some a' ∧ RepSt a' st' ∧ a'.nodes.size = a.nodes.size :=
+  let ⟨a', h1, h2, h3, _⟩ := delete_rep h hw.slots hsize key hm
+  ⟨a', h1, h2, h3⟩
+
+/-- **delete_by_index(handle)**, also the removal step of lazy expiry -/
+theorem arena_deleteByIndex_refines {a : Arena V} {st st' : St V} (slot : Nat) (h : RepSt a st) (hw : WF st)
+    (hsize : a.nodes.size ≤ EMPTY) (hm : st.deleteByIndex slot = some st') :
+    ∃ a', a.deleteIndex slot = some a' ∧ RepSt a' st' ∧ a'.nodes.size = a.nodes.size :=
+  let ⟨a', h1, h2, h3, _⟩ := deleteByIndex_rep h hw.slots hsize slot hm
+  ⟨a', h1, h2, h3⟩
+
+/-- the delete repair alone, in any context: `fix_red_black_properties_after_delete` realises `fixUpD` -/
+theorem arena_fixDelete_refines (fuel : Nat) : FixDeleteSpec (V := V) fuel := fixDelete_rep fuel
 
 /-- non-vacuity: three insertions into a new arena, computed by the pointer code, are represented -/
 example : ∃ a', ((Arena.new 8 (⟨0, 0, 0⟩ : Ent Nat)).insert ⟨5, 0, 50⟩) = some a' ∧
